@@ -383,6 +383,11 @@ func WriteStats() {
 	if path == "" {
 		return
 	}
+	if IsFuzzWorker() {
+		// worker processes of a native fuzzing campaign leave their own statistics file next
+		// to the coordinator's; the driver merges every "<stats>.w<pid>" file
+		path = fmt.Sprintf("%s.w%d", path, os.Getpid())
+	}
 	st.mu.Lock()
 	defer st.mu.Unlock()
 	out := map[string]interface{}{
@@ -428,6 +433,31 @@ func init() {
 			return v
 		})
 	}
+}
+
+// IsFuzzWorker reports whether this process is a worker of a native go fuzzing campaign.
+func IsFuzzWorker() bool {
+	for _, a := range os.Args[1:] {
+		if strings.HasPrefix(a, "-test.fuzzworker") {
+			return true
+		}
+	}
+	return false
+}
+
+// FuzzRapid is a native fuzz target over a rapid generator: the fuzzer's bytes become the
+// bit stream the generator draws from (rapid.MakeFuzz), so coverage feedback steers the same
+// case space TestProp samples blindly. A violation is reported like any other failing case.
+func FuzzRapid[C any](f *testing.F, kind string, gen func(*rapid.T) C, exec func(C) Verdict) {
+	f.Fuzz(rapid.MakeFuzz(func(rt *rapid.T) {
+		c := gen(rt)
+		v := exec(c)
+		Record(kind, c, v)
+		if !v.OK {
+			ReportFailure(kind, c, v)
+			rt.Fatalf("VIOLATION clause=%s step=%d: %s", v.Clause, v.Step, v.Detail)
+		}
+	}))
 }
 
 // Uniform draws an (almost exactly) uniform integer in [0,n). rapid's own integer
